@@ -156,7 +156,7 @@ mod c01 {
     /// writer then costs nothing; what the structure contains is the subject of the harness below, which does not
     /// close), the call is `Ok` exactly when the NOC yields a public key, the key imports and the primitive says
     /// "verified" - for every outcome of the three.
-    // TIER: quick
+    // TIER: quick!  (the decision 'a signature that does not verify is refused' belongs in every run, whatever it costs)
     // KIND: complete (decision over every outcome of pubkey / import / verify; certificate and key bytes fixed, they do not influence the decision)
     #[kani::proof]
     #[kani::unwind(67)]
